@@ -160,12 +160,6 @@ def out_of_domain(case, mline):
             word = data.lstrip(b":").split(b" ", 1)[0] if not data.startswith(b":") else (data.split(b" ", 2)[1] if len(data.split(b" ", 2)) > 1 else b"")
             if any(c >= 0x80 for c in word):
                 return "non-ascii-command"
-            if word.upper() in (b"MODE", b"SVSMODE"):
-                # Go iterates the mode string by runes and prints string(byte) for an unknown mode character; the model
-                # iterates bytes (identical for ASCII mode strings, which is the modelled domain)
-                m = irclib.go_parse_message(data)
-                if m is not None and len(m[2]) > 1 and any(c >= 0x80 for c in m[2][1]):
-                    return "non-ascii-mode-string"
     return None
 
 
@@ -386,7 +380,10 @@ def run_irc_check(ck, prop, prefix, replay, n_quick=120, n_thorough=2500, kinds=
         for fn in sorted(os.listdir(cdir)):
             # D16 (SVSNICK that only changes the case) is outside the domain of the properties ("onto free nicknames")
             if fn.endswith(".case") and fn not in ("D16.case",):
-                cases.append(irclib.apply_sanitizer(irclib.parse_case_line(open(os.path.join(cdir, fn)).read()), san))
+                # cases with expiry sweeps were written relative to the wall clock of that moment: re-based to now
+                c = irclib.rebase_wallclock(irclib.parse_case_line(open(os.path.join(cdir, fn)).read()))
+                if c is not None:
+                    cases.append(irclib.apply_sanitizer(c, san))
         ncorp = len(cases)
         ks = kinds or [None]
         while len(cases) < ncorp + n:
